@@ -18,7 +18,13 @@ func configs() []cfg {
 		{id: "C04", pkg: "checks/c04", level: "model_checking", workers: 8, instr: rtmpI, race: true},
 		{id: "C05", pkg: "checks/c05", level: "exploration", workers: 16},
 		{id: "C06", pkg: "checks/c06", level: "exploration", workers: 16},
-		{id: "C07", pkg: "checks/c07", level: "exploration", workers: 16},
+		{id: "C07", pkg: "checks/c07", level: "exploration", workers: 16, quickBud: 150 * time.Second, thoroBud: 25 * time.Minute,
+			instr: []instr.PkgRules{
+				{Pkg: "websocket", SyncSwap: true, ChanLock: []string{"mu"}, Export: "websocket/verif_export.go", Ticks: true},
+				{Pkg: "rtmp", Ticks: true}, {Pkg: "amf0", Ticks: true}, {Pkg: "flv", Ticks: true}, {Pkg: "aac", Ticks: true}, {Pkg: "avc", Ticks: true},
+				{Pkg: "json", Ticks: true}, {Pkg: "https/jose", Ticks: true}, {Pkg: "https/jose/cipher", Ticks: true}, {Pkg: "https/crypto/ocsp", Ticks: true},
+				{Pkg: "errors", Ticks: true},
+			}},
 		{id: "C08", pkg: "checks/c08", level: "fault_enumeration", workers: 16},
 		{id: "C09", pkg: "checks/c09", level: "exploration", workers: 16},
 		{id: "C10", pkg: "checks/c10", level: "exploration", workers: 16},
